@@ -63,7 +63,10 @@ Definition n_path (mask : N) (owner : bool) (m : muri) (done : N) (s : mstate) :
     | (false, m1, done1, s1) => (None, m1, done1, s1)
     | (true, m1, done1, s1) =>
       let '(ok, m2, s2) := remove_dot_segments_m relative (owner || negb (N.land done1 B_PATH =? 0)%N) m1 s1 in
-      if ok then let '(m3, s3) := fix_empty_trail_m m2 s2 in (Some (m3, done1), m3, done1, s3)
+      if ok then
+        let '(ok', m2', s2') := fix_ambiguity_owned_m csize m2 s2 in
+        if ok' then let '(m3, s3) := fix_empty_trail_m m2' s2' in (Some (m3, done1), m3, done1, s3)
+        else (None, m2', done1, s2')
       else (None, m2, done1, s2)
     end
   else (Some (m, done), m, done, s).
@@ -205,6 +208,36 @@ Proof.
   - eapply st_perm; [exact S|]. intros x. cn. lia.
   - apply S.
   - destruct S as (_ & _ & O). rewrite (O (sg_node sg)). rewrite cnt_self. lia.
+Qed.
+
+(* uriFixAmbiguity with the copy of the "." (the object owns its segment texts): both blocks are the
+   new segment's; when the copy is refused the node has been released again *)
+Lemma fao_spec m s0 s F : st s0 s (seg_blocks (m_segs m)) F -> Forall (sfld true) (m_segs m) ->
+  match fix_ambiguity_owned_m csize m s with
+  | (ok, m', s') => exists segs', m' = set_m_segs segs' m /\ st s0 s' (seg_blocks segs') F /\ Forall (sfld true) segs'
+                                  /\ (ok = false -> fails_between s0 s')
+  end.
+Proof.
+  intros S Fs. unfold fix_ambiguity_owned_m.
+  assert (Same : forall s', st s0 s' (seg_blocks (m_segs m)) F ->
+            exists segs', m = set_m_segs segs' m /\ st s0 s' (seg_blocks segs') F /\ Forall (sfld true) segs').
+  { intros s' S'. exists (m_segs m). rewrite set_m_segs_self. auto. }
+  destruct (match m_abs m with true => _ | false => _ end).
+  2:{ destruct (Same s S) as (segs' & a & b & c). exists segs'. repeat (split; [assumption|]). discriminate. }
+  pose proof (st_alloc false SEG_SIZE s0 s _ _ S) as Al. destruct (alloc false SEG_SIZE s) as [[id|] s1].
+  - pose proof (st_alloc false (tlen [46%N] * csize)%N s0 s1 _ _ Al) as Al2.
+    destruct (alloc false (tlen [46%N] * csize)%N s1) as [[b|] s2].
+    + exists ({| sg_text := [46%N]; sg_blk := Some b; sg_node := id |} :: m_segs m). split; [reflexivity|].
+      split; [|split; [constructor; [reflexivity|exact Fs]|discriminate]].
+      eapply st_perm; [exact Al2|]. intros x. cn. cbn [sg_node sg_blk blk_list]. cn. lia.
+    + destruct Al2 as (Al2 & Fl).
+      assert (Rl : rel s2 (free_blk id s2) [id]).
+      { apply rel_free; [apply Al2|]. destruct Al2 as (_ & _ & O). rewrite (O id). cn. rewrite cnt_self. lia. }
+      assert (S3 : st s0 (free_blk id s2) (seg_blocks (m_segs m)) F) by (eapply (st_rel s0 s2 _ [id]); [exact Al2|exact Rl]).
+      destruct (Same _ S3) as (segs' & a & b' & c). exists segs'. repeat (split; [assumption|]).
+      intros _. eapply fails_ext; [exact Fl|]. apply Rl.
+  - destruct Al as (Al & Fl). destruct (Same _ Al) as (segs' & a & b & c). exists segs'. repeat (split; [assumption|]).
+    intros _. exact Fl.
 Qed.
 
 (* ---------------------------------------------------------------- the invariant of the engine *)
@@ -408,25 +441,38 @@ Proof.
   (* what happens after the segment texts have been fixed: dot removal, trailing segment *)
   assert (Tail : forall m1 done1 s1 segs1 owned,
             m1 = set_m_segs segs1 m -> st s s1 (seg_blocks segs1) (pframe m s) -> Forall (sfld owned) segs1 ->
-            owned = o || bitb done1 B_PATH -> others B_PATH done done1 -> sub done1 (N.lor M B_PATH) -> (o = true -> done1 = 0%N) ->
+            owned = o || bitb done1 B_PATH -> o || bitb done1 B_PATH = true ->
+            others B_PATH done done1 -> sub done1 (N.lor M B_PATH) -> (o = true -> done1 = 0%N) ->
             match (let '(ok, m2, s2) := remove_dot_segments_m relative owned m1 s1 in
-                   if ok then let '(m3, s3) := fix_empty_trail_m m2 s2 in (Some (m3, done1), m3, done1, s3)
+                   if ok then
+                     let '(ok', m2', s2') := fix_ambiguity_owned_m csize m2 s2 in
+                     if ok' then let '(m3, s3) := fix_empty_trail_m m2' s2' in (Some (m3, done1), m3, done1, s3)
+                     else (None, m2', done1, s2')
                    else (None, m2, done1, s2)) with
             | (Some (m', done'), _, _, s') => neng o m0 s0 m' s' done' (N.lor M B_PATH)
             | (None, mf, donef, s') => failready o m0 s0 mf s' donef
             end).
-  { intros m1 done1 s1 segs1 owned -> S1 F1 -> Hoth Sb1 Oz1.
+  { intros m1 done1 s1 segs1 owned -> S1 F1 -> Hown Hoth Sb1 Oz1.
     assert (S1' : st s s1 (seg_blocks (m_segs (set_m_segs segs1 m))) (pframe m s)) by exact S1.
     pose proof (rds_m_spec relative (o || bitb done1 B_PATH) (set_m_segs segs1 m) s s1 _ S1' F1) as R.
     destruct (remove_dot_segments_m relative (o || bitb done1 B_PATH) (set_m_segs segs1 m) s1) as [[ok m2] s2].
     destruct R as (segs2 & -> & S2 & F2 & Fl). rewrite set_m_segs_twice.
     destruct ok.
     - assert (S2' : st s s2 (seg_blocks (m_segs (set_m_segs segs2 m))) (pframe m s)) by exact S2.
-      pose proof (fet_spec (o || bitb done1 B_PATH) (set_m_segs segs2 m) s s2 _ S2' F2) as R3.
-      destruct (fix_empty_trail_m (set_m_segs segs2 m) s2) as [m3 s3]. destruct R3 as (segs3 & -> & S3 & F3).
-      rewrite set_m_segs_twice.
-      split; [apply S3|]. split; [eapply ext_trans; [exact E|apply S3]|]. split; [apply (inv_set_segs o done done1); auto|].
-      split; [eapply acct_of_st; eauto|]. split; [exact Sb1|]. split; [exact Oz1|exact Ow].
+      assert (F2' : Forall (sfld true) (m_segs (set_m_segs segs2 m))) by (rewrite <- Hown; exact F2).
+      pose proof (fao_spec (set_m_segs segs2 m) s s2 _ S2' F2') as Ra.
+      destruct (fix_ambiguity_owned_m csize (set_m_segs segs2 m) s2) as [[ok' m2'] s2'].
+      destruct Ra as (segs2' & -> & S2a & F2a & Fla). rewrite set_m_segs_twice. rewrite <- Hown in F2a.
+      destruct ok'.
+      + assert (S2'' : st s s2' (seg_blocks (m_segs (set_m_segs segs2' m))) (pframe m s)) by exact S2a.
+        pose proof (fet_spec (o || bitb done1 B_PATH) (set_m_segs segs2' m) s s2' _ S2'' F2a) as R3.
+        destruct (fix_empty_trail_m (set_m_segs segs2' m) s2') as [m3 s3]. destruct R3 as (segs3 & -> & S3 & F3).
+        rewrite set_m_segs_twice.
+        split; [apply S3|]. split; [eapply ext_trans; [exact E|apply S3]|]. split; [apply (inv_set_segs o done done1); auto|].
+        split; [eapply acct_of_st; eauto|]. split; [exact Sb1|]. split; [exact Oz1|exact Ow].
+      + split; [apply S2a|]. split; [eapply ext_trans; [exact E|apply S2a]|]. split; [apply (inv_set_segs o done done1); auto|].
+        split; [eapply acct_of_st; eauto|]. split; [exact Oz1|]. split; [exact Ow|].
+        eapply fails_right; [exact E|apply S2a|]. apply Fla. reflexivity.
     - split; [apply S2|]. split; [eapply ext_trans; [exact E|apply S2]|]. split; [apply (inv_set_segs o done done1); auto|].
       split; [eapply acct_of_st; eauto|]. split; [exact Oz1|]. split; [exact Ow|].
       eapply fails_right; [exact E|apply S2|]. apply Fl. reflexivity. }
@@ -435,6 +481,7 @@ Proof.
     apply (Tail _ done s _ true eq_refl).
     + rewrite map_fix_blocks. exact S0.
     + apply map_fix_sfld. exact Fs.
+    + reflexivity.
     + reflexivity.
     + apply others_refl.
     + apply sub_weaken. exact Sb.
@@ -449,6 +496,7 @@ Proof.
       * split; [exact W1|]. split; [exact E1|exact O1].
       * rewrite bitb_lor. cbn [orb]. rewrite orb_true_r. exact F1.
       * reflexivity.
+      * rewrite bitb_lor. apply orb_true_r.
       * apply others_lor.
       * apply sub_lor. exact Sb.
       * discriminate.
